@@ -182,6 +182,13 @@ def regenerate(repo: str, lean_dir: str) -> tuple[bool, dict]:
 
 if __name__ == "__main__":
     import sys
-    g, rep = extract_tree(sys.argv[1])
-    print(lean_term(g))
-    print("-- opaque:", rep, file=sys.stderr)
+    if sys.argv[1:2] == ["--regenerate"]:
+        # python3 harness/importgraph.py --regenerate [<repo> [<lean dir>]]   (used by MANIFEST.setup_cmd and the seeded tools)
+        here = os.path.dirname(os.path.dirname(os.path.abspath(__file__)))
+        repo = sys.argv[2] if len(sys.argv) > 2 else os.environ.get("VERIF_REPO", "/repo")
+        changed, rep = regenerate(repo, sys.argv[3] if len(sys.argv) > 3 else os.path.join(here, "lean"))
+        print("import graph", "regenerated" if changed else "unchanged", "opaque:", rep)
+    else:
+        g, rep = extract_tree(sys.argv[1])
+        print(lean_term(g))
+        print("-- opaque:", rep, file=sys.stderr)
